@@ -90,10 +90,6 @@ bool index_read(zckCtx *zck, char *data, size_t size, size_t max_length) {
         }
         memcpy(new->digest, data+length, zck->index.digest_size);
         new->digest_size = zck->index.digest_size;
-        HASH_FIND(hh, zck->index.ht, new->digest, new->digest_size, tmp);
-        if(!tmp)
-            HASH_ADD_KEYPTR(hh, zck->index.ht, new->digest, new->digest_size,
-                            new);
         length += zck->index.digest_size;
 
         /* Read uncompressed entry digest, if any */
@@ -113,12 +109,20 @@ bool index_read(zckCtx *zck, char *data, size_t size, size_t max_length) {
                 return false;
             }
             memcpy(new->digest_uncompressed, data+length, zck->index.digest_size);
+            length += zck->index.digest_size;
+        }
+        /* Only enter the chunk into the hash tables once its digests are
+         * complete, so that the error paths above can safely free it */
+        HASH_FIND(hh, zck->index.ht, new->digest, new->digest_size, tmp);
+        if(!tmp)
+            HASH_ADD_KEYPTR(hh, zck->index.ht, new->digest, new->digest_size,
+                            new);
+        if (zck->has_uncompressed_source) {
             HASH_FIND(hhuncomp, zck->index.htuncomp, new->digest_uncompressed, new->digest_size, tmp);
             if(!tmp)
                HASH_ADD_KEYPTR(hhuncomp, zck->index.htuncomp, new->digest_uncompressed, new->digest_size,
                                new);
-            length += zck->index.digest_size;
-	}
+        }
         /* Read and store entry length */
         size_t chunk_length = 0;
         if(!compint_to_size(zck, &chunk_length, data+length, &length,
